@@ -739,6 +739,11 @@ func requalify(q proto.NStmt, from, to string) proto.NStmt {
 		gb[i] = *fix(&gb[i])
 	}
 	q.GroupBy = gb
+	ob := append([]proto.NOrder(nil), q.OrderBy...)
+	for i := range ob {
+		ob[i].Col = *fix(&ob[i].Col)
+	}
+	q.OrderBy = ob
 	q.Where = fixCond(q.Where)
 	from2 := append([]proto.NTable(nil), q.From...)
 	for i := range from2 {
